@@ -24,11 +24,10 @@ impl SDJWTDisclosure  {
 
         #[cfg(feature = "mock_salts")]
         let salt = {
-            value_str = value_str
-                .replace(":[", ": [")
-                .replace(',', ", ")
-                .replace("\":", "\": ")
-                .replace("\":  ", "\": ");
+            // Python-style separators (", " and ": ") between tokens only, never inside strings
+            if let Ok(parsed) = serde_json::from_str::<Value>(&value_str) {
+                value_str = to_python_style_json(&parsed);
+            }
             generate_salt_mock()
         };
 
@@ -68,6 +67,34 @@ fn escape_unicode_chars(s: &str) -> String {
     }
 
     result
+}
+
+/// Serializes like Python's `json.dumps` with its default separators `", "` and `": "`.
+#[cfg(feature = "mock_salts")]
+fn to_python_style_json(value: &Value) -> String {
+    use serde::Serialize;
+    use serde_json::ser::Formatter;
+    use std::io;
+
+    struct PythonStyle;
+    impl Formatter for PythonStyle {
+        fn begin_array_value<W: ?Sized + io::Write>(&mut self, w: &mut W, first: bool) -> io::Result<()> {
+            if first { Ok(()) } else { w.write_all(b", ") }
+        }
+        fn begin_object_key<W: ?Sized + io::Write>(&mut self, w: &mut W, first: bool) -> io::Result<()> {
+            if first { Ok(()) } else { w.write_all(b", ") }
+        }
+        fn begin_object_value<W: ?Sized + io::Write>(&mut self, w: &mut W) -> io::Result<()> {
+            w.write_all(b": ")
+        }
+    }
+
+    let mut out = Vec::new();
+    let mut ser = serde_json::Serializer::with_formatter(&mut out, PythonStyle);
+    match value.serialize(&mut ser) {
+        Ok(()) => String::from_utf8(out).unwrap_or_else(|_| value.to_string()),
+        Err(_) => value.to_string(),
+    }
 }
 
 fn escape_json(s: &str) -> String {
